@@ -15,7 +15,8 @@ class Loop:
 class Contract:
     def __init__(self, target, serves=(), types=None, returns=None, requires=(), ensures=(), raises=None,
                  loops=None, modifies=(), ghosts=None, on_call=None, examples=None, variant='', trusted=False,
-                 locals=None, self_fields=None, notes='', assumes=(), lemmas=(), opaque_loops=()):
+                 locals=None, self_fields=None, notes='', assumes=(), lemmas=(), opaque_loops=(), fix=None, params=None,
+                 rebinds=(), allocates=False, new_graph_schema='mol', opaque=()):
         self.target = target          # 'cgsmiles.resolve:compatible' / 'cgsmiles.resolve:MoleculeResolver.resolve'
         self.variant = variant
         self.serves = list(serves)
@@ -36,6 +37,12 @@ class Contract:
         self.assumes = list(assumes)          # assumptions recorded in the evidence when this contract is used
         self.lemmas = list(lemmas)
         self.opaque_loops = set(opaque_loops)  # loops summarised by havoc of their assigned names (invariant True)
+        self.fix = dict(fix or {})            # parameter -> python constant it is fixed to (a precondition p == const)
+        self.params = params                  # externals: [(name, default source or None)] since there is no AST to read
+        self.rebinds = list(rebinds)          # 'self.x' fields the method re-binds
+        self.allocates = allocates            # creates graphs (heap must be havoc'd even without a modifies clause)
+        self.new_graph_schema = new_graph_schema
+        self.opaque = set(opaque)             # spec functions whose definition is hidden in this function's VCs
 
     @property
     def key(self):
